@@ -42,6 +42,7 @@ type World struct {
 	globalsWritten map[string]bool
 	verifRoot string
 	sweep map[string]bool
+	closedElems map[string]bool
 }
 
 func loadWorld(repo, verifRoot string) (*World, error) {
@@ -105,6 +106,32 @@ func loadWorld(repo, verifRoot string) (*World, error) {
 	return w, nil
 }
 
+// closesChan: does the package ever call close() on a channel with this element type?
+// (mechanical scan; sends on channels that are never closed cannot panic)
+func (w *World) closesChan(t types.Type) bool {
+	ct, ok := t.Underlying().(*types.Chan)
+	if !ok {
+		return true
+	}
+	if w.closedElems == nil {
+		w.closedElems = map[string]bool{}
+		for _, fn := range w.funcs {
+			for _, b := range fn.Blocks {
+				for _, in := range b.Instrs {
+					if c, ok := in.(*ssa.Call); ok {
+						if bi, ok := c.Call.Value.(*ssa.Builtin); ok && bi.Name() == "close" {
+							if cc, ok := c.Call.Args[0].Type().Underlying().(*types.Chan); ok {
+								w.closedElems[types.TypeString(cc.Elem(), nil)] = true
+							}
+						}
+					}
+				}
+			}
+		}
+	}
+	return w.closedElems[types.TypeString(ct.Elem(), nil)]
+}
+
 func (w *World) inPkg(fn *ssa.Function) bool {
 	for p := fn; p != nil; p = p.Parent() {
 		if p.Pkg == w.pkg {
@@ -129,12 +156,22 @@ func (w *World) typeName(t types.Type) string {
 	if p, ok := t.Underlying().(*types.Pointer); ok && t != t.Underlying() {
 		_ = p
 	}
-	return types.TypeString(t, func(p *types.Package) string {
+	s := types.TypeString(t, func(p *types.Package) string {
 		if p == w.tpkg {
 			return ""
 		}
 		return p.Name()
 	})
+	// anonymous types: make the name usable inside SMT symbols
+	var sb strings.Builder
+	for _, r := range s {
+		if r >= 'a' && r <= 'z' || r >= 'A' && r <= 'Z' || r >= '0' && r <= '9' || r == '_' || r == '.' {
+			sb.WriteRune(r)
+		} else {
+			sb.WriteByte('_')
+		}
+	}
+	return sb.String()
 }
 
 // parseType resolves a type written in a spec file.
